@@ -203,6 +203,11 @@ func (ex *Exec) doReach(id string, c *Term) {
 			s := ex.renderModel(model)
 			s["_reach"] = id
 			ex.samples = append(ex.samples, s)
+			mm := map[string]uint64{}
+			for name := range ex.vars {
+				mm[name] = model[name]
+			}
+			ex.sampleModels = append(ex.sampleModels, SampleModel{Reach: id, Model: mm})
 		}
 	}
 }
